@@ -260,8 +260,21 @@ class Steps(Stream):
     def histogram(self, cases, obs):
         h = {'ops': {}, 'faults': {}, 'exceptions': {}, 'raised': 0, 'returned': 0, 'raised_and_changed': 0,
              'pre_nodes': {}, 'flavour': {}, 'history_len': {}}
+        hyp = {'service_calls': 0, 'ifaces_typed_violated': 0, 'supply_apart_violated': 0,
+               'wf_graph': 'evaluated in Coq on every pre- and post-snapshot (a violation would be a disagreement)'}
+        h['service_rollback_hypotheses'] = hyp
         for c, o in zip(cases, obs):
             call = c['call']
+            if call['op'] in ('add_service', 'port_mirror') and o.get('info'):
+                # do the hypotheses of C09_service_rollback hold of the cases the tie actually runs?
+                ifs = o['info'].get('ifs') if call['op'] == 'add_service' else ([o['info']['to']] if o['info'].get('to') else [])
+                cls = {n[0]: n[1] for n in o['pre']['nodes']}
+                hyp['service_calls'] += 1
+                if any(i[0] in cls and cls[i[0]] != 'ConnectionPoint' for i in (ifs or [])):
+                    hyp['ifaces_typed_violated'] += 1
+                pot = set(o['fresh']) | ({call['node_id']} if call.get('node_id') else set())
+                if any(i[0] in pot for i in (ifs or [])):
+                    hyp['supply_apart_violated'] += 1
             h['ops'][call['op']] = h['ops'].get(call['op'], 0) + 1
             fk = '%s/%s' % (call['op'], call.get('fault', 'none'))
             h['faults'][fk] = h['faults'].get(fk, 0) + 1
